@@ -3,11 +3,11 @@
    are mapped to their OCaml counterparts; Z / positive / N stay the extracted
    inductive types (no mapping to machine integers, no Extract Constant). *)
 From Coq Require Import Extraction ExtrOcamlBasic.
-From FP Require Import Machine SrcConsts Pow10 RoundSpec Rounding Round ArithSpec.
+From FP Require Import Machine SrcConsts Out Run.
 
 Extraction Language OCaml.
 Extraction "../ocaml/model.ml"
-  dev release all_modes
-  ten_pow mul_pow_ten checked_mul_pow_ten
-  i128_div_mod_floor i128_div_rounded rndq rnd
-  dec_round dec_checked_round round_spec.
+  dev release all_modes out_eqb
+  run_dd acc_dd run_di acc_di run_id acc_id run_ii acc_ii known_K1
+  run_un acc_un run_fromint acc_fromint run_fromu128 acc_fromu128
+  run_k acc_k.
